@@ -724,7 +724,7 @@ def run_impl(case):
         if now["tb"] != sh["tb"] and not any(f["op"] == i for f in failures):
             fail("C12/add_table_row/wrong-row", i, f"after {op}: tables {now['tb']} expected {sh['tb']}")
         for t, cols in now["tb"]:
-            if len({len(v) for _, v in cols}) > 1 and not any(f["key"] == "C12/add_table_row/misaligned" for f in failures):
+            if len({len(v) for _, v in cols}) > 1 and kind == "addrow" and not any(f["op"] == i for f in failures):
                 fail("C12/add_table_row/misaligned", i, f"table t{t} has columns of different lengths: {cols}")
         # resynchronise so that one defect is reported once, at its origin
         if any(f["op"] == i for f in failures):
@@ -802,7 +802,8 @@ def _obs_frames(dc, cfg, cls, sh, i, fail):
                     fail("C12/frames/table", i, f"get_table_dataframe(t{t}): columns {list(df.columns)} rows {rows}; accepted rows are {exp}")
         except ValueError:
             out += [t, -1, E_VALUE]
-            fail("C12/frames/table", i, f"get_table_dataframe(t{t}) raised ValueError: the columns have different lengths: {cols}")
+            if len({len(v) for _, v in cols}) == 1:   # ragged columns are reported where they arise (add_table_row)
+                fail("C12/frames/table", i, f"get_table_dataframe(t{t}) raised ValueError on aligned columns {cols}")
     return out
 
 
